@@ -7,6 +7,8 @@ run(ctx):
         spec_ok   polysEq (interpPoly prog) (interpPoly (specProg cfg))   program ≡ documentation (IR rendering)
         block_ok  specAgrees cfg                                           IR rendering ≡ entry-wise formula
         valid_ok  (validate cfg).isOk                                      the configuration passes the model's guards
+     Cert/LIN/C08/Chain.lean instantiates Props.C08.isBlockMap_of_certs / equivariant_of_certs at every program of the run
+     (closed end-to-end theorems `<name>_is_block_map`, `<name>_equivariant`),
      and Cert/LIN/C19/<name>.lean `introspection_ok` (mask ⇔ zero polynomial, weight_numel, views = model slices);
      ONE `lake build` of the aggregators + Props/C08.lean; build errors are mapped back to programs, and for a failed
      program a concrete input is searched on which the real module differs from the specification value.
@@ -511,15 +513,17 @@ def run(ctx):
         ctx.obligation(f"generate:{n}", False, v["cfg"].describe() + " :: " + v["error"])
     okn = [n for n in info if info[n]["error"] is None]
     targets = ["E3nnVerif.Props.C08", "E3nnVerif.Generated.LIN.Registry", "E3nnVerif.Cert.LIN.C08.All", "E3nnVerif.Cert.LIN.C08.Rand",
-               "E3nnVerif.Cert.LIN.C19.All", "E3nnVerif.Cert.LIN.C19.Rand"]
+               "E3nnVerif.Cert.LIN.C19.All", "E3nnVerif.Cert.LIN.C19.Rand", "E3nnVerif.Cert.LIN.C08.Chain"]
     ok, out = ctx.lake_build(targets)
     failed = F.failed_targets(out) if not ok else set()
-    failed08 = {t.rsplit(".", 1)[1] for t in failed if t.startswith("E3nnVerif.Cert.LIN.C08.")} - {"All", "Rand"}
+    failed08 = {t.rsplit(".", 1)[1] for t in failed if t.startswith("E3nnVerif.Cert.LIN.C08.")} - {"All", "Rand", "Chain"}
     failed19 = {t.rsplit(".", 1)[1] for t in failed if t.startswith("E3nnVerif.Cert.LIN.C19.")} - {"All", "Rand"}
     props_ok = ok or not any(t in failed for t in ("E3nnVerif.Props.C08", "E3nnVerif.Theory.Linear", "E3nnVerif.Model.LinearSpec",
                                                     "E3nnVerif.Model.LinearChecks"))
     ctx.obligation("build:Props.C08", props_ok, out[-3000:] if not props_ok else "")
     other_fail = (not ok) and props_ok and not failed08 and not failed19
+    ctx.obligation("build:Cert.LIN.C08.Chain (end-to-end theorems per program)", ok or "E3nnVerif.Cert.LIN.C08.Chain" not in failed or bool(failed08),
+                   out[-2000:] if not ok else "")
     ctx.obligation("build:aggregators", not other_fail, out[-3000:] if other_fail else "")
     for n in okn:
         ctx.obligation(f"cert:C08:{n}:spec_ok+block_ok+valid_ok", n not in failed08, info[n]["cfg"].describe() if n in failed08 else "")
@@ -535,8 +539,8 @@ def run(ctx):
         ctx.audit(["E3nnVerif.Props.C08", "E3nnVerif.Theory.Linear"])
     if ok:
         certs = audit_certs(ctx, imports=["E3nnVerif.Cert.LIN.C08.All", "E3nnVerif.Cert.LIN.C08.Rand", "E3nnVerif.Cert.LIN.C19.All",
-                                          "E3nnVerif.Cert.LIN.C19.Rand"])
-        ctx.obligation("audit:certs-found", len(certs) >= 4 * len(okn), f"{len(certs)} certificate theorems for {len(okn)} programs")
+                                          "E3nnVerif.Cert.LIN.C19.Rand", "E3nnVerif.Cert.LIN.C08.Chain"])
+        ctx.obligation("audit:certs-found", len(certs) >= 6 * len(okn), f"{len(certs)} certificate theorems for {len(okn)} programs")
 
     # ---- 3. correspondence
     old = e3nn.get_optimization_defaults()
@@ -566,6 +570,12 @@ def run(ctx):
         "degenerate shapes; instruction subsets / permutations / duplicates; bias masks) + VERIF_SEED-dependent random configurations; "
         "non-trivial = weight_numel > 0. CTOR/EVAL: random configurations (invalid indices, irreps mismatches, bad bias masks included for CTOR). "
         "Clauses: the real module only, float64, 1e-11 (values) / 1e-9 (equivariance).")
+    ctx.notes["not_covered"] = [
+        "negative instruction indices other than the reported -1 collision (python-style indices are accepted by the real constructor; the model's indices are naturals)",
+        "f_in given without f_out (or vice versa): the real constructor fails with TypeError/RuntimeError inside code generation; the model has channels both-or-none",
+        "broadcasting between the leading dimensions of x and of per-sample weights (the implementation flattens both; shapes must agree)",
+        "float32 execution / autograd / device placement",
+    ]
     ctx.notes["family"] = {n: info[n]["cfg"].describe() for n in okn}
     ctx.notes["translator"] = {k: sum(info[n]["stats"].get(k, 0) for n in okn) for k in ("nodes", "nodes_before_dce", "recognised_sqrt", "rational", "dyadic_fallback")}
     ctx.assumptions += [
